@@ -229,6 +229,11 @@ def repr_all(ix, n, P, parts=("num", "meas", "tags", "fields", "time")):
     out = []
     if "num" in parts:
         out.append(("num_items", f["_num_items"].t == n))
+        # redundant but cheap: any key in the index means the view is non-empty (used for `empty`)
+        ks = z3.Const(fresh_name("k"), _str)
+        for nm, fld_ in (("tags", "_tags"), ("fields", "_fields"), ("meas", "_measurements")):
+            if nm in parts:
+                out.append((nm + "_keys_imply_points", forall([ks], z3.Implies(z3.Select(d_dom(f[fld_].t), ks), n > 0), patterns=[z3.Select(d_dom(f[fld_].t), ks)])))
     if "meas" in parts:
         out += repr_meas(f["_measurements"], n, P)
     if "tags" in parts:
@@ -372,6 +377,9 @@ def time_axioms():
     for name, rel in (("eq", x == y), ("ne", x != y), ("lt", x < y), ("le", x <= y), ("gt", x > y), ("ge", x >= y)):
         A.append(forall([q, d], z3.Implies(z3.And(elig, q_op(q) == OPS[name]), q_test(q, uv_dt(d)) == rel), patterns=[q_test(q, uv_dt(d))]))
     A.append(forall([d], uv_dt(dt_utc(dt_from_ts(dt_ts(d)))) == uv_dt(d), patterns=[dt_ts(d)]))
+    x_ = z3.Real("ax_x")
+    A.append(forall([x_], dt_ts(dt_utc(dt_from_ts(x_))) == x_, patterns=[dt_from_ts(x_)]))
+    A.append(forall([d], dt_ts(dt_utc(d)) == dt_ts(d), patterns=[dt_utc(d)]))  # astimezone keeps the instant
     return A
 
 
